@@ -11,7 +11,7 @@ def simplify_fmt(I, ctx, f):
     if all(isinstance(p, str) for p in parts): return "".join(parts)
     if all(isinstance(p, (str, int)) and not isinstance(p, bool) for p in parts): return "".join(str(p) for p in parts)
     # single symbolic string with empty literal pieces: the string itself
-    nonempty = [p for p in parts if p != ""]
+    nonempty = [p for p in parts if not (isinstance(p, str) and p == "")]
     if len(nonempty) == 1 and is_str(nonempty[0]): return nonempty[0]
     return FmtStr(parts)
 
